@@ -10,6 +10,7 @@ import MxlVerif.Lemmas.Unique
 import MxlVerif.Lemmas.PermInvariant
 import MxlVerif.Lemmas.PermArgs
 import MxlVerif.Lemmas.Reject
+import MxlVerif.Lemmas.PermRhs
 namespace Mxl.C02
 open Mxl
 
@@ -182,6 +183,20 @@ theorem C02_argument_table_order_independent {c c' : Content} (hn : WFnames c)
   obtain ⟨cache'', hc'', _, hpars, hdyn, _⟩ := createCache_perm_invariant hn hsame hc
   rw [hc'] at hc''; cases hc''
   exact getArgsEnv_perm_invariant hn hsame hc hc' hpars hdyn vars vars' hv hv' hvv t he he'
+
+/-- **… down to the derivatives.**  The positional right-hand side `Model.__call__` of a well-named
+    content and of any re-declaration of it in another order, asked at the same state (as a map
+    variable ↦ value; each vector listed in its own content's variable order) and time, returns the
+    same derivative for every variable (flux names distinct, each stoichiometry naming a compound
+    once — dict keys — as in `C01_rhs_is_Nv`). -/
+theorem C02_derivatives_order_independent {c c' : Content} (hn : WFnames c)
+    (hsame : SameContent c' c) (hflux : (omKeys c.allStoich).Nodup)
+    (hcpd : ∀ flux s, (flux, s) ∈ c.allStoich → (omKeys s).Nodup)
+    {t : Rat} {xs xs' d d' : List Rat}
+    (hstate : ∀ k, ((omKeys c'.vars).zip xs').lookup k = ((omKeys c.vars).zip xs).lookup k)
+    (h : callRhs c t xs = .ok d) (h' : callRhs c' t xs' = .ok d') :
+    ∀ x, ((omKeys c'.vars).zip d').lookup x = ((omKeys c.vars).zip d).lookup x :=
+  callRhs_perm_invariant hn hsame hflux hcpd hstate h h'
 
 /-- **The verdict is a function of the graph alone**: acyclic and complete → an order; some
     required name provided by nothing → the missing-dependency error; complete but not acyclic →
